@@ -35,7 +35,10 @@ def setups(tier):
     out = [S22.MixedSetup("elem", [(), (2,)]),
            S22.MixedSetup("elem", [(), (2,), ()]),
            S22.MixedSetup("mfs", [(2,), (), ()]),
-           S22.MixedSetup("elem", ["sym2", (2,), ()])]
+           S22.MixedSetup("elem", ["sym2", (2,), ()]),
+           # Petrov-Galerkin: test and trial functions in DIFFERENT mixed spaces on the same mesh (other
+           # degrees, other number / order / shapes of sub-elements)
+           S22.MixedSetup("elem", [(), (2,)], trial_shapes=[(2,), (), ()], trial_degree=2)]
     if tier == "thorough":
         out += [S22.MixedSetup("elem", [(2,), ()]),
                 S22.MixedSetup("elem", [(2,), (), ()]),
@@ -48,7 +51,9 @@ def setups(tier):
                 S22.MixedSetup("mfs", [(2,), (), (), (2,)]),
                 S22.MixedSetup("mfs", [(2, 2), (2,)]),
                 S22.MixedSetup("elem", [(), "sym2", (2,)]),
-                S22.MixedSetup("mfs", ["sym2", ()])]
+                S22.MixedSetup("mfs", ["sym2", ()]),
+                S22.MixedSetup("elem", [(2,), (), ()], trial_shapes=[(), (2,)], trial_degree=2),
+                S22.MixedSetup("elem", [(), (2,)], trial_degree=2)]
     return out
 
 
